@@ -40,6 +40,7 @@ def main():
         # normalise: the patch is applied / reverted by this script, prose is not shell
         demo = re.sub(r"git apply [^;&]*[;&]+", "", demo)
         demo = re.sub(r";?\s*git checkout -- src\b", "", demo)
+        demo = re.sub(r"^\(a\)\s*", "", demo)
         demo = re.split(r"\s{2,}\(|\s+#", demo)[0]
         demo = demo.replace("<go1.25.0 toolchain>/bin/go", GO).replace("<go1.25>/bin/go", GO)
         log["demo_cmd_used"] = demo.replace(wt, "<worktree>")
@@ -56,11 +57,11 @@ def main():
         log["demo_on_clean_tree"] = "pass" if p else "FAIL"
         if not p:
             print("demo does not pass on the clean tree:\n", out[-2000:])
-        rc, out = sh(f"git apply seeded/{k}/patch.diff", cwd=wt)
+        rc, out = sh(f"git apply seeded/{k}/patch.diff && git add -A src", cwd=wt)  # staged: files the patch adds survive the clean-up of demo files
         log["patch_applies"] = rc == 0
         if rc != 0:
             print("patch does not apply:", out)
-        rc, out = sh(f"{GO} build ./... && {GO} test -vet=off -count=1 ./...", cwd=wt)
+        rc, out = sh(f"{GO} build ./src/... ./cmd/... && {GO} test -vet=off -count=1 ./src/... ./cmd/...", cwd=wt)  # the repository proper: the copied seeded/ directory may hold stray .go demo files
         bad = [l for l in out.splitlines() if l.startswith("FAIL") or l.startswith("---") or "cannot" in l]
         log["build_and_pinned_suite_with_patch"] = "ok" if rc == 0 and not bad else "FAILS: " + "; ".join(bad[:5])
         p2, f2, out2 = run_demo()
